@@ -1045,11 +1045,14 @@ class Interp:
                     return
                 # unknown scalar: every edge is possible
                 seen = set()
+                swname = "switch@%s:bb%d" % (body.path, bi)
+                swval = self.abstract(v, st)
                 for val, bb in t["targets"] + [["otherwise", t["otherwise"]]]:
                     if blocks[bb]["term"]["k"] == "unreachable" and not blocks[bb]["stmts"]:
                         continue
                     st2 = st.fork()
-                    st2.choose("switch@%s:bb%d" % (body.path, bi), val)
+                    st2.effect(("switch", swname, swval))
+                    st2.choose(swname, val)
                     work.append((bb, 0, st2))
                 return
             if k == "return":
